@@ -139,6 +139,8 @@ theorem encodeSegments_spec (i : Info) (src : Array Byte) (P : Nat → List Byte
     ∀ (n s : Nat) (body : List Byte) (offs : List Nat) (oob : Bool),
     (∀ t, s ≤ t → t < s + n →
       readPlane src (i.segStart t) i.segStride i.pixelCount = some (P t)) →
+    64 + (padE body).length + ((List.range' s n).map fun t => chunkOf (P t)).flatten.length
+      ≤ maxEncodedFrameLength →
     ∃ B, encodeSegments i src n s body offs oob =
         .ok (B, offs ++ offsOf (64 + (padE body).length)
           ((List.range' s n).map fun t => chunkOf (P t)), oob) ∧
@@ -146,17 +148,27 @@ theorem encodeSegments_spec (i : Info) (src : Array Byte) (P : Nat → List Byte
   intro n
   induction n with
   | zero =>
-    intro s body offs oob _
+    intro s body offs oob _ _
     exact ⟨body, by simp [encodeSegments, offsOf], by simp⟩
   | succ n ih =>
-    intro s body offs oob hP
+    intro s body offs oob hP hfit
     have hb : (if (64 + body.length) % 2 = 1 then body ++ [0] else body) = padE body := rfl
     have hr := hP s (Nat.le_refl _) (by omega)
+    have hfl : ((List.range' s (n + 1)).map fun t => chunkOf (P t)).flatten.length =
+        (chunkOf (P s)).length + ((List.range' (s + 1) n).map fun t => chunkOf (P t)).flatten.length := by
+      simp [List.range'_succ]
+    rw [hfl] at hfit
+    have hck : (chunkOf (P s)).length = (encodeSegment (P s)).1.length + (padOf (encodeSegment (P s)).1).length := by
+      simp [chunkOf]
+    have hpe := padE_append (padE body) (encodeSegment (P s)).1 (padE_length_even body)
+    have hguard : ¬ (64 + (padE body ++ (encodeSegment (P s)).1).length > maxEncodedFrameLength) := by
+      simp only [List.length_append]; omega
     obtain ⟨B, hB, hpad⟩ := ih (s + 1) (padE body ++ (encodeSegment (P s)).1)
       (offs ++ [64 + (padE body).length]) oob (fun t h1 h2 => hP t (by omega) (by omega))
+      (by rw [hpe]; simp only [List.length_append] at hck ⊢; omega)
     refine ⟨B, ?_, ?_⟩
     · rw [encodeSegments]
-      simp only [hb, hr, (encodeSegment_spec (P s)).2, Bool.or_false]
+      simp only [hb, hr, (encodeSegment_spec (P s)).2, Bool.or_false, if_neg hguard]
       rw [hB, padE_append _ _ (padE_length_even body)]
       simp [List.range'_succ, offsOf, chunkOf, Nat.add_assoc]
     · rw [hpad, padE_append _ _ (padE_length_even body)]
@@ -188,15 +200,58 @@ theorem padE_nil : padE [] = [] := by simp [padE]
 
 theorem encodeSegments_all (i : Info) (src : Array Byte) (P : Nat → List Byte)
     (hP : ∀ t, t < i.numberOfSegments →
-      readPlane src (i.segStart t) i.segStride i.pixelCount = some (P t)) :
+      readPlane src (i.segStart t) i.segStride i.pixelCount = some (P t))
+    (hfit : 64 + ((List.range' 0 i.numberOfSegments).map fun t => chunkOf (P t)).flatten.length
+      ≤ maxEncodedFrameLength) :
     ∃ B, encodeSegments i src i.numberOfSegments 0 [] [] false =
         .ok (B, offsOf 64 ((List.range' 0 i.numberOfSegments).map fun t => chunkOf (P t)), false) ∧
       padE B = ((List.range' 0 i.numberOfSegments).map fun t => chunkOf (P t)).flatten := by
   obtain ⟨B, hB, hpad⟩ := encodeSegments_spec i src P i.numberOfSegments 0 [] [] false
-    (fun t _ h => hP t (by omega))
+    (fun t _ h => hP t (by omega)) (by rw [padE_nil]; simpa using hfit)
   rw [padE_nil, List.nil_append] at hB hpad
   rw [List.length_nil, Nat.add_zero] at hB
   exact ⟨B, hB, hpad⟩
+
+/-- the other branch of the size guard: while the stream written so far fits, a total beyond
+    `maxEncodedFrameLength` makes the segment loop return the error at the first segment that passes it -/
+theorem encodeSegments_reject (i : Info) (src : Array Byte) (P : Nat → List Byte) :
+    ∀ (n s : Nat) (body : List Byte) (offs : List Nat) (oob : Bool),
+    (∀ t, s ≤ t → t < s + n →
+      readPlane src (i.segStart t) i.segStride i.pixelCount = some (P t)) →
+    64 + (padE body).length ≤ maxEncodedFrameLength →
+    64 + (padE body).length + ((List.range' s n).map fun t => chunkOf (P t)).flatten.length
+      > maxEncodedFrameLength →
+    encodeSegments i src n s body offs oob = .error .tooBig := by
+  intro n
+  induction n with
+  | zero =>
+    intro s body offs oob _ h1 h2
+    simp at h2
+    omega
+  | succ n ih =>
+    intro s body offs oob hP h1 h2
+    have hb : (if (64 + body.length) % 2 = 1 then body ++ [0] else body) = padE body := rfl
+    have hr := hP s (Nat.le_refl _) (by omega)
+    have hfl : ((List.range' s (n + 1)).map fun t => chunkOf (P t)).flatten.length =
+        (chunkOf (P s)).length + ((List.range' (s + 1) n).map fun t => chunkOf (P t)).flatten.length := by
+      simp [List.range'_succ]
+    rw [hfl] at h2
+    have hck : (chunkOf (P s)).length = (encodeSegment (P s)).1.length + (padOf (encodeSegment (P s)).1).length := by
+      simp [chunkOf]
+    have hpe := padE_append (padE body) (encodeSegment (P s)).1 (padE_length_even body)
+    have hev := padE_length_even body
+    have hpo : (padOf (encodeSegment (P s)).1).length = (encodeSegment (P s)).1.length % 2 := by
+      unfold padOf; split <;> rename_i h <;> simp <;> omega
+    rw [encodeSegments]
+    simp only [hb, hr]
+    by_cases hguard : 64 + (padE body ++ (encodeSegment (P s)).1).length > maxEncodedFrameLength
+    · rw [if_pos hguard]
+    · rw [if_neg hguard]
+      simp only [List.length_append] at hguard
+      have hmax : maxEncodedFrameLength % 2 = 0 := by decide
+      apply ih (s + 1) _ _ _ (fun t h1 h2 => hP t (by omega) (by omega))
+      · rw [hpe]; simp only [List.length_append]; omega
+      · rw [hpe]; simp only [List.length_append]; omega
 
 theorem encodeFrame_stream (i : Info) (src : Array Byte) (cs : List (List Byte))
     (h0 : src.size ≠ 0) (hn : i.numberOfSegments ≤ 15) (hn1 : 1 ≤ i.numberOfSegments)
@@ -213,10 +268,25 @@ theorem encodeFrame_eq (i : Info) (src : Array Byte) (P : Nat → List Byte)
     (h0 : src.size ≠ 0) (hn : i.numberOfSegments ≤ 15) (hn1 : 1 ≤ i.numberOfSegments)
     (hpc : 1 ≤ i.pixelCount)
     (hP : ∀ t, t < i.numberOfSegments →
-      readPlane src (i.segStart t) i.segStride i.pixelCount = some (P t)) :
+      readPlane src (i.segStart t) i.segStride i.pixelCount = some (P t))
+    (hfit : 64 + ((List.range' 0 i.numberOfSegments).map fun t => chunkOf (P t)).flatten.length
+      ≤ maxEncodedFrameLength) :
     encodeFrame i src =
       .ok (mkStream ((List.range' 0 i.numberOfSegments).map fun t => chunkOf (P t))) :=
-  encodeFrame_stream i src _ h0 hn hn1 hpc (encodeSegments_all i src P hP)
+  encodeFrame_stream i src _ h0 hn hn1 hpc (encodeSegments_all i src P hP hfit)
+
+theorem encodeFrame_reject (i : Info) (src : Array Byte) (P : Nat → List Byte)
+    (h0 : src.size ≠ 0) (hn : i.numberOfSegments ≤ 15) (hn1 : 1 ≤ i.numberOfSegments)
+    (hpc : 1 ≤ i.pixelCount)
+    (hP : ∀ t, t < i.numberOfSegments →
+      readPlane src (i.segStart t) i.segStride i.pixelCount = some (P t))
+    (hbig : 64 + ((List.range' 0 i.numberOfSegments).map fun t => chunkOf (P t)).flatten.length
+      > maxEncodedFrameLength) :
+    encodeFrame i src = .err := by
+  have hn' : ¬ (i.numberOfSegments < 1 ∨ i.numberOfSegments > 15 ∨ i.pixelCount < 1) := by omega
+  have := encodeSegments_reject i src P i.numberOfSegments 0 [] [] false
+    (fun t _ h => hP t (by omega)) (by rw [padE_nil]; decide) (by rw [padE_nil]; simpa using hbig)
+  rw [encodeFrame, if_neg h0, if_neg hn', this]
 
 theorem stream_rd_count (cs : List (List Byte)) (h : cs.length ≤ 15) :
     rd32 (mkStream cs) 0 = cs.length := by
